@@ -120,6 +120,7 @@ pub struct World {
     /// every RRSIG the honest signer ever produced: (folded owner, canonical RRSIG RDATA)
     pub genuine_sigs: Mutex<HashSet<(Name, Vec<u8>)>>,
     resp_cache: Mutex<HashMap<(Name, u16, bool), Resp>>,
+    verified_sigs: Mutex<HashMap<(Name, Vec<u8>), bool>>,
 }
 
 const TTL_DATA: u32 = 3600;
@@ -127,7 +128,7 @@ const TTL_NEG: u32 = 300;
 
 impl World {
     pub fn new(truth: Truth) -> World {
-        World { truth, sig_cache: Mutex::new(HashMap::new()), genuine_sigs: Mutex::new(HashSet::new()), resp_cache: Mutex::new(HashMap::new()) }
+        World { truth, sig_cache: Mutex::new(HashMap::new()), genuine_sigs: Mutex::new(HashSet::new()), resp_cache: Mutex::new(HashMap::new()), verified_sigs: Mutex::new(HashMap::new()) }
     }
 
     fn ttl_of(t: u16) -> u32 {
@@ -166,8 +167,64 @@ impl World {
         v
     }
 
+    /// Is this RRSIG one the zone's own keys made over the genuine RRset? Fast path: the honest signer
+    /// produced exactly these bytes in this process. Otherwise (a witness replays records of an
+    /// earlier process; ECDSA signatures differ from run to run) it is verified with ring against the
+    /// zone's real public keys over the ground-truth RRset.
     pub fn is_genuine_sig(&self, owner: &[Vec<u8>], rrsig_rdata: &[u8]) -> bool {
-        self.genuine_sigs.lock().unwrap().contains(&(fold(owner), canon(ty::RRSIG, rrsig_rdata)))
+        let key = (fold(owner), canon(ty::RRSIG, rrsig_rdata));
+        if self.genuine_sigs.lock().unwrap().contains(&key) {
+            return true;
+        }
+        if let Some(v) = self.verified_sigs.lock().unwrap().get(&key) {
+            return *v;
+        }
+        let v = self.verify_sig(&key.0, rrsig_rdata);
+        self.verified_sigs.lock().unwrap().insert(key, v);
+        v
+    }
+
+    fn verify_sig(&self, owner: &Name, rd: &[u8]) -> bool {
+        if rd.len() < 19 {
+            return false;
+        }
+        let Some((signer, off)) = refzone::read_wire_name(rd, 18) else { return false };
+        let f = SigFields {
+            type_covered: u16::from_be_bytes([rd[0], rd[1]]),
+            algorithm: rd[2],
+            labels: rd[3],
+            original_ttl: u32::from_be_bytes([rd[4], rd[5], rd[6], rd[7]]),
+            expiration: u32::from_be_bytes([rd[8], rd[9], rd[10], rd[11]]),
+            inception: u32::from_be_bytes([rd[12], rd[13], rd[14], rd[15]]),
+            key_tag: u16::from_be_bytes([rd[16], rd[17]]),
+            signer: signer.clone(),
+        };
+        let sig = &rd[off..];
+        let Some((zi, z)) = self.truth.zones.iter().enumerate().find(|(_, z)| z.apex == signer) else { return false };
+        if !z.spec.signed || !is_subdomain(owner, &z.apex) {
+            return false;
+        }
+        let h = &self.truth.hier;
+        if f.inception != h.inception || f.expiration != h.expiration {
+            return false;
+        }
+        for (gz, set) in self.truth.genuine(owner, f.type_covered) {
+            if gz != zi {
+                continue;
+            }
+            let rdatas: Vec<Vec<u8>> = set.into_iter().collect();
+            let Ok(data) = refsign::signed_data(owner, 1, &f, &rdatas) else { continue };
+            for k in z.keys.iter().filter(|k| k.spec.publish && k.spec.alg == f.algorithm && k.tag == f.key_tag && if f.type_covered == ty::DNSKEY { k.spec.signs_keyset } else { k.spec.signs_data }) {
+                let ok = match &k.signer {
+                    Some(_) => refsign::verify(k.spec.alg, &k.public, &data, sig),
+                    None => k.sign(&data) == sig,
+                };
+                if ok {
+                    return true;
+                }
+            }
+        }
+        false
     }
 
     /// push an RRset and (if `dnssec`) its RRSIGs into a section
